@@ -380,7 +380,7 @@ impl ParserProp {
     // -------------------------------------------------------------- C18
     fn no_panic(&self, s: &mut dyn Src, rep: &mut Report) -> CaseResult {
         const ALPHA: [&str; 40] = ["(", ")", "[", "]", "|", ",", ";", ".", ":", "-", ":-", "=", "<", ">", "==", "<=", ">=", "+", "*", "/", "\\", "\"", "$", "_", "%", "#", " ", "  ", "a", "Z", "0", "9", "$X", "$_", "é", "Δ", "not(", "time(", "!", "\t"];
-        let kind = weighted(s, &[3, 5, 3]);
+        let kind = weighted(s, &[6, 10, 6, 1]);
         let valid = |s: &mut dyn Src| -> String {
             match s.draw(4) {
                 0 => render::term(&c_term(s, 0), &CANON),
@@ -406,9 +406,31 @@ impl ParserProp {
                 }
                 chars.into_iter().collect()
             }
-            _ => { let n = s.draw(24); (0..n).map(|_| pick(s, &ALPHA)).collect::<Vec<_>>().join("") }
+            2 => { let n = s.draw(24); (0..n).map(|_| pick(s, &ALPHA)).collect::<Vec<_>>().join("") }
+            _ => {
+                // deep nesting (10-70 levels, text stays below the parsers' 1000-character limit): each level wraps the
+                // text so far in one of the nesting constructs; a parser whose cost doubles per level never comes back
+                let depth = 10 + s.draw(61);
+                let mut t = String::from(pick(s, &["a", "$X", "1", "f(a, b)", "[a, b]", "add(1, 2)"]));
+                let style = s.draw(8);
+                for i in 0..depth {
+                    let w = if style < 7 { style } else { s.draw(7) };
+                    let next = match w {
+                        0 => format!("f({})", t),
+                        1 => format!("[{}]", t),
+                        2 => format!("add(1, {})", t),
+                        3 => format!("({})", t),
+                        4 => format!("g(a, {}, [b])", t),
+                        5 => format!("[a | [{}]]", t),
+                        _ => if i % 2 == 0 { format!("join(x, {})", t) } else { format!("multiply({}, 2)", t) },
+                    };
+                    if next.chars().count() > 900 { break; }
+                    t = next;
+                }
+                match s.draw(4) { 0 => t, 1 => format!("p :- $Z = {}.", t), 2 => format!("q({})", t), _ => format!("r({}) :- s.", t) }
+            }
         };
-        self.no_panic_text(&text, ["valid", "mutated", "random"][kind], rep)
+        self.no_panic_text(&text, ["valid", "mutated", "random", "deeply-nested"][kind], rep)
     }
 
     pub fn no_panic_text(&self, text: &str, class: &str, rep: &mut Report) -> CaseResult {
